@@ -16,6 +16,9 @@ partial def loopC09 (rows : Option (Array Automata.Wire.Row)) (h out : IO.FS.Str
   | "c09" :: "ttys" :: rest =>
     out.putStrLn (TextTty.handle rows ("ttys" :: rest)).2
     loopC09 rows h out
+  | "c09" :: "script" :: rest =>
+    out.putStrLn (TextTty.handle rows ("script" :: rest)).2
+    loopC09 rows h out
   | "c09" :: rest =>
     out.putStrLn (TextLayout.handle rest)
     loopC09 rows h out
